@@ -473,6 +473,12 @@ def mesh_ok_for(rec, mc):
     return False
 
 
+def _thin_cells(mc):
+    p, t = mc.mesh.p, mc.mesh.t[:3]
+    q = np.abs(G.simplex_dets(p, t)) / G.simplex_hmax(p, t) ** 2
+    return bool(q.min() < 2.0 ** -6)
+
+
 def gen_case(kind):
     def fn(ctx, k):
         rng = ctx.rng()
@@ -494,6 +500,12 @@ def gen_case(kind):
                 ctx.drop("element-needs-other-mesh")
                 continue
             if rec.family == "global" and mc.order != 1:
+                continue
+            if rec.family == "global" and kind == "tri" and _thin_cells(mc):
+                # the library tabulates these elements by inverting a Vandermonde matrix of global monomials up to
+                # degree 5 per cell: on slivers (det/h^2 < 2^-6) that matrix is singular to working precision, which
+                # is a conditioning limit of the tabulation used as an instrument here, not a statement of C04
+                ctx.drop("global-element-on-sliver")
                 continue
             basis = check_dofs(ctx, mc, rec)
             if rec.family in ("h1", "h1vec", "composite", "hdiv", "hcurl") and not rec.skeleton:
